@@ -991,7 +991,7 @@ Qed.
 Lemma failing_body_nc st maxrt s mx rate rt o' : Inv maxrt s -> counter_of s = None ->
   failing_body (scfg s) maxrt (observe true st s) mx rate rt o' = true.
 Proof.
-  intros I C. unfold failing_body, rem_of, inner_is, rcfg_det.
+  intros I C. unfold failing_body, inner_is, rlim_is, rcfg_det, rem_of.
   destruct (observe_rem_eq st _ _ I) as [-> _]. unfold observe_rem. unfold counter_of, has_counter in C.
   destruct (rem s) as [w|]; [|reflexivity]. destruct (rin w) as [i|]; [|reflexivity]. simpl.
   destruct (iw i); try discriminate. destruct (iun i); reflexivity.
@@ -1000,7 +1000,7 @@ Qed.
 Lemma recovery_body_nc st maxrt s limit rt o' : Inv maxrt s -> counter_of s = None ->
   recovery_body maxrt (observe true st s) limit rt o' = true.
 Proof.
-  intros I C. unfold recovery_body, rem_of, inner_is, rcfg_det.
+  intros I C. unfold recovery_body, inner_is, rlim_is, rcfg_det, rem_of.
   destruct (observe_rem_eq st _ _ I) as [-> _]. unfold observe_rem. unfold counter_of, has_counter in C.
   destruct (rem s) as [w|]; [|reflexivity]. destruct (rin w) as [i|]; [|reflexivity]. simpl.
   destruct (iw i); try discriminate. reflexivity.
@@ -1034,7 +1034,7 @@ Proof.
   destruct (counter_of s) as [ic|] eqn:C; [right|left; reflexivity].
   unfold counter_of in C. destruct (rem s) as [w|] eqn:R; [|discriminate].
   destruct (rin w) as [i|] eqn:Ri; [|discriminate]. destruct (has_counter i) eqn:H; [|discriminate].
-  inversion C; subst ic; clear C. exists w, i. split; [reflexivity|]. split; [reflexivity|]. right.
+  inversion C; subst ic; clear C. exists w, i. split; [reflexivity|]. split; [exact Ri|]. right.
   unfold wrap_ok in I3. rewrite Ri in I3. destruct I3 as (it & Rc & Hit & Hi).
   destruct e as [it0|idle sv mx rate|mx rate| |r0 rt0|ok| |ms|x|kk x a b g h| |]; simpl in A; try discriminate.
   - (* worker round, delivered *)
@@ -1052,7 +1052,7 @@ Proof.
     destruct sv; try discriminate; rewrite E; reflexivity.
   - (* watchdog after a silence *)
     destruct (4 <? k_now k / 1000 - k_quiet k / 1000) eqn:Q; [|discriminate]. inversion A; subst r rt; clear A.
-    pose proof (Cc i (counter_some s w i R Ri H)) as Sy.
+    pose proof (Cc i eq_refl) as Sy.
     assert (Fire : has_counter i && (4 <? now_sec s - isync i) = true).
     { rewrite H. unfold now_sec. rewrite Cn. simpl. lia. }
     destruct (set_limit_ok (scfg s) maxrt i it (RErr mx rate) 0 V Hit Hi) as (i' & E & _).
@@ -1094,7 +1094,8 @@ Proof.
     - apply recovery_body_nc; [assumption|]. unfold counter_of, has_counter. rewrite R, Ri, W. reflexivity.
     - eapply acc_clause; eauto. }
   destruct e as [it0|idle sv mx rate|mx rate| |r0 rt0|ok| |ms|x|kk x a b g h| |];
-    try (destruct (as_reply _ _ _) as [[[| |[|]] ?]|] eqn:A; try reflexivity; apply Reply; exact A).
+    try (destruct (as_reply k _ _) as [[r rt]|] eqn:A; [|reflexivity];
+         destruct r as [? ?| |[|] ?]; try reflexivity; apply Reply; reflexivity).
   (* a server quota *)
   unfold inner_is, rlim_is, rem_of. simpl o_rem. rewrite Or.
   destruct (present s) eqn:P; [|reflexivity]. simpl.
@@ -1117,4 +1118,508 @@ Proof.
   + destruct Hi' as (_ & L & _). rewrite L. simpl. apply lim_eqb_refl.
   + destruct Hi' as (X & _). rewrite X in S. discriminate.
   + destruct Hi' as (X & _). rewrite X in S. discriminate.
+Qed.
+
+(* ---------- histories ---------- *)
+Lemma next_rt_ge maxrt k e : maxrt <= next_rt maxrt k e.
+Proof. destruct e; simpl; try lia; apply zmax_ge. Qed.
+
+Lemma next_rt_clk maxrt k s q e : snow s = k_now k -> srounds s = k_rounds k -> next_rt maxrt (clk_of s q) e = next_rt maxrt k e.
+Proof. intros A B. destruct e; simpl; try reflexivity. unfold worker_rt, clk_of. simpl. rewrite A, B. reflexivity. Qed.
+
+Lemma clause_with_sent st c str o b :
+  bound_ok c (with_sent o b) = bound_ok c o /\ fallback_ok st c str (with_sent o b) = fallback_ok st c str o /\
+  inforce_ok st str (with_sent o b) = inforce_ok st str o /\ nopanic_ok (with_sent o b) = nopanic_ok o /\
+  absent_ok (with_sent o b) = absent_ok o.
+Proof. repeat split; reflexivity. Qed.
+
+Lemma hist_holds st :
+  forall ops s maxrt k, Forall ev_ok ops -> 0 <= maxrt -> Inv maxrt s -> Ctx k s ->
+  hist_ok st (present s) (scfg s) (sstr s) maxrt k (observe true st s) (trace true true true st s ops) = all_true.
+Proof.
+  induction ops as [|e r IH]; intros s maxrt k Ev Hm I C; [reflexivity|].
+  inversion Ev as [|? ? Ee Er]; subst.
+  simpl. pose proof (step_inv st maxrt s e 0 Hm Ee I) as I'.
+  pose proof C as (Cn & Cr & _). rewrite (next_rt_clk maxrt k s 0 e Cn Cr) in I'.
+  pose proof (next_rt_ge maxrt k e) as Hge.
+  pose proof (ctx_step st maxrt k s e Hm I Ee C) as C'.
+  destruct (step_proj st s e ltac:(destruct I as (I1 & _); exact I1)) as (P' & Cf' & S' & _).
+  set (s' := step true true true st s e) in *.
+  set (o' := with_sent (observe true st s') (sent_in st s e)) in *.
+  assert (IHs : hist_ok st (present s') (scfg s') (sstr s') (next_rt maxrt k e)
+                  (next_clk k (observe true st s) e o') (observe true st s') (trace true true true st s' r) = all_true)
+    by (apply IH; auto; lia).
+  assert (Prev : hist_ok st (present s') (scfg s') (sstr s') (next_rt maxrt k e)
+                  (next_clk k (observe true st s) e o') o' (trace true true true st s' r) = all_true).
+  { (* the flag o_sent of the previous observation is not looked at by the next step *)
+    clear - IHs. revert IHs. generalize (next_clk k (observe true st s) e o'). generalize (next_rt maxrt k e).
+    generalize (present s'), (scfg s'), (sstr s').
+    destruct (trace true true true st s' r) as [|[e1 o1] r1]; [reflexivity|].
+    intros p c str m kk. simpl. unfold step_ok, failing_ok, recovery_ok, next_clk, noisy.
+    replace (has_counter_obs o') with (has_counter_obs (observe true st s')) by reflexivity.
+    unfold failing_body, recovery_body, inner_is, rlim_is, rcfg_det, rem_of. simpl o_rem. auto. }
+  rewrite <- P', <- Cf', <- S'. rewrite Prev.
+  unfold step_ok.
+  destruct (clause_with_sent st (scfg s') (sstr s') (observe true st s') (sent_in st s e)) as (B1 & B2 & B3 & B4 & B5).
+  fold o' in B1, B2, B3, B4, B5. rewrite B1, B2, B3, B4, B5. rewrite (nopanic_holds st _ _ I').
+  pose proof (failing_holds st maxrt k s e Hm Ee I C) as F1. pose proof (recovery_holds st maxrt k s e Hm Ee I C) as F2.
+  fold s' in F1, F2. fold o' in F1, F2. rewrite F1, F2.
+  destruct (present s') eqn:P.
+  - rewrite (bound_holds st _ _ I' P), (fallback_holds st _ _ I' P), (inforce_holds st _ _ I' P). reflexivity.
+  - rewrite (absent_holds st _ _ I' P). reflexivity.
+Qed.
+
+Lemma init_inv c str0 : valid_cfg c -> Inv 0 (init c str0).
+Proof. intros V. unfold Inv, init. simpl. auto. Qed.
+
+Definition clk0 : clk := {| k_now := 0; k_rounds := 0; k_quiet := 0 |}.
+
+Lemma init_ctx c str0 : Ctx clk0 (init c str0).
+Proof. unfold Ctx, clk0, init, counter_of. simpl. repeat split; try lia. intros i H. discriminate. Qed.
+
+Lemma case_holds st str0 ops : valid_cfg (cfg st) -> Forall ev_ok ops ->
+  case_ok st str0 (observe true st (init (cfg st) str0)) (trace true true true st (init (cfg st) str0) ops) = all_true.
+Proof.
+  intros V Ev. unfold case_ok. pose proof (init_inv (cfg st) str0 V) as I.
+  pose proof (hist_holds st ops _ 0 clk0 Ev ltac:(lia) I (init_ctx _ _)) as H.
+  simpl sstr in H. simpl scfg in H. simpl present in H. unfold clk0 in H. rewrite H.
+  unfold obs_ok.
+  pose proof (bound_holds st 0 _ I eq_refl) as B. simpl scfg in B. rewrite B.
+  rewrite (nopanic_holds st 0 _ I).
+  pose proof (fallback_holds st 0 _ I eq_refl) as F. simpl sstr in F. simpl scfg in F. rewrite F.
+  pose proof (inforce_holds st 0 _ I eq_refl) as G. simpl sstr in G. rewrite G.
+  reflexivity.
+Qed.
+
+Lemma run_inv st :
+  forall ops s maxrt k, Forall ev_ok ops -> 0 <= maxrt -> Inv maxrt s -> Ctx k s ->
+  exists m k', 0 <= m /\ Inv m (run true true true st s ops) /\ Ctx k' (run true true true st s ops).
+Proof.
+  induction ops as [|e r IH]; intros s maxrt k Ev Hm I C; [exists maxrt, k; auto|].
+  inversion Ev as [|? ? Ee Er]; subst.
+  simpl. pose proof (next_rt_ge maxrt (clk_of s 0) e).
+  eapply (IH _ (next_rt maxrt (clk_of s 0) e)); [assumption|lia|apply step_inv; auto|].
+  eapply ctx_step; eauto.
+Qed.
+
+Lemma reach_inv st str0 ops : valid_cfg (cfg st) -> Forall ev_ok ops ->
+  exists m, 0 <= m /\ Inv m (run true true true st (init (cfg st) str0) ops).
+Proof.
+  intros V Ev. destruct (run_inv st ops _ 0 clk0 Ev ltac:(lia) (init_inv _ str0 V) (init_ctx _ _)) as (m & k & A & B & _).
+  exists m. auto.
+Qed.
+
+Lemma reach_ctx st str0 ops : valid_cfg (cfg st) -> Forall ev_ok ops ->
+  exists m k, 0 <= m /\ Inv m (run true true true st (init (cfg st) str0) ops) /\ Ctx k (run true true true st (init (cfg st) str0) ops).
+Proof. intros V Ev. apply (run_inv st ops _ 0 clk0 Ev); [lia|apply init_inv; assumption|apply init_ctx]. Qed.
+
+(* the limiter a request meets is bounded by the schema currently configured, for every reachable state *)
+Lemma enforced_bounded st maxrt s : Inv maxrt s -> present s = true ->
+  exists l, o_lim (observe true st s) = Some l /\ lim_bounded (scfg s) l = true /\
+            (forall n, l = LMI n -> o_adm (observe true st s) <= n).
+Proof.
+  intros I P. pose proof I as (_ & V & _). rewrite (observe_shape st maxrt s I P). simpl.
+  destruct (elig st s) eqn:E.
+  - unfold elig in E. destruct (md st); try discriminate. destruct (cs st); try discriminate.
+    apply andb_true_iff in E. destruct E as [_ E]. unfold has_inner in E.
+    destruct (remote_lim s) as [l|] eqn:R.
+    + exists l. split; [reflexivity|]. split; [eapply remote_bounded; eauto|].
+      intros n ->. apply admitted_le.
+    + unfold remote_lim in R. destruct (rem s) as [w|]; [|discriminate]. destruct (rin w); discriminate.
+  - exists (local_lim (scfg s)). split; [reflexivity|]. split.
+    + rewrite (local_lim_spec _ V). unfold local_spec, lim_bounded, in_range, valid_cfg in *. destruct (ck (scfg s)); lia.
+    + intros n ->. apply admitted_le.
+Qed.
+
+Lemma size_le_global st str0 ops : valid_cfg (cfg st) -> Forall ev_ok ops ->
+  let s := run true true true st (init (cfg st) str0) ops in
+  present s = true -> ck (scfg s) = KMI ->
+  (exists n, o_lim (observe true st s) = Some (LMI n) /\ 0 <= n <= g1 (scfg s) /\ o_adm (observe true st s) <= g1 (scfg s))
+  /\ (forall l, remote_lim s = Some l -> exists n, l = LMI n /\ 0 <= n <= g1 (scfg s)).
+Proof.
+  intros V Ev s P Ks. destruct (reach_inv st str0 ops V Ev) as (m & _ & I). fold s in I. split.
+  - destruct (enforced_bounded st m s I P) as (l & L & B & A).
+    unfold lim_bounded, in_range in B. rewrite Ks in B. destruct l; try discriminate.
+    exists n. split; [assumption|]. specialize (A n eq_refl). lia.
+  - intros l R. pose proof (remote_bounded m s l I R) as B.
+    unfold lim_bounded, in_range in B. rewrite Ks in B. destruct l; try discriminate. exists n. split; [reflexivity|lia].
+Qed.
+
+Lemma tb_le_global st str0 ops : valid_cfg (cfg st) -> Forall ev_ok ops ->
+  let s := run true true true st (init (cfg st) str0) ops in
+  present s = true -> ck (scfg s) = KTB ->
+  (exists q b, o_lim (observe true st s) = Some (LTB q b) /\ 0 <= q <= g1 (scfg s) /\ 0 <= b <= g2 (scfg s))
+  /\ (forall l, remote_lim s = Some l -> exists q b, l = LTB q b /\ 0 <= q <= g1 (scfg s) /\ 0 <= b <= g2 (scfg s)).
+Proof.
+  intros V Ev s P Ks. destruct (reach_inv st str0 ops V Ev) as (m & _ & I). fold s in I. split.
+  - destruct (enforced_bounded st m s I P) as (l & L & B & A).
+    unfold lim_bounded, in_range in B. rewrite Ks in B. destruct l; try discriminate.
+    exists q, b. split; [assumption|]. lia.
+  - intros l R. pose proof (remote_bounded m s l I R) as B.
+    unfold lim_bounded, in_range in B. rewrite Ks in B. destruct l; try discriminate. exists q, b. split; [reflexivity|lia].
+Qed.
+
+(* fallback: any missing condition selects the local limiter with the local limit *)
+Lemma fallback st str0 ops : valid_cfg (cfg st) -> Forall ev_ok ops ->
+  let s := run true true true st (init (cfg st) str0) ops in
+  present s = true ->
+  (md st <> MRemote \/ enable_global (sstr s) = false \/ cs st <> CSOk \/ hready s = false \/ has_inner s = false) ->
+  o_sel (observe true st s) = SelLocal /\ o_lim (observe true st s) = Some (local_spec (scfg s)).
+Proof.
+  intros V Ev s P H. destruct (reach_inv st str0 ops V Ev) as (m & _ & I). fold s in I.
+  pose proof I as (_ & Vs & _).
+  rewrite (observe_shape st m s I P). simpl.
+  assert (E : elig st s = false).
+  { unfold elig. destruct (md st) eqn:M; try reflexivity. destruct (cs st) eqn:Cs; try reflexivity.
+    destruct H as [H|[H|[H|[H|H]]]]; try congruence; rewrite H; simpl; try reflexivity.
+    - destruct (enable_global (sstr s)); reflexivity.
+    - destruct (enable_global (sstr s)); destruct (hready s); reflexivity. }
+  rewrite E, (local_lim_spec _ Vs). auto.
+Qed.
+
+(* a deleted schema name gets the default flow control, a known one never *)
+Lemma default_iff_absent st str0 ops : valid_cfg (cfg st) -> Forall ev_ok ops ->
+  let s := run true true true st (init (cfg st) str0) ops in
+  (o_sel (observe true st s) = SelDefault <-> present s = false).
+Proof.
+  intros V Ev s. destruct (reach_inv st str0 ops V Ev) as (m & _ & I). fold s in I.
+  destruct (present s) eqn:P.
+  - rewrite (observe_shape st m s I P). simpl. destruct (elig st s); split; discriminate.
+  - rewrite (observe_absent st m s I P). simpl. split; reflexivity.
+Qed.
+
+(* readiness hysteresis: failing heartbeats for at least 5 s make the server not ready, for less than 5 s
+   they do not; one good heartbeat or a leader change makes it ready *)
+Lemma hage_step st s e : 0 <= hage s -> 0 <= hage (step true true true st s e).
+Proof.
+  intros H. unfold step. destruct (crashed s); [assumption|].
+  destruct e as [it|idle sv mx rate|mx rate| |r rt|ok| |ms|x|k x a b g h| |]; simpl.
+  - destruct (present s && enable_global (sstr s)); [|assumption]. unfold apply_sync. destruct (rw_sync _ _ _ _ _ _); assumption.
+  - destruct (worker_target st s idle) as [[w i]|]; [|assumption].
+    destruct sv; try assumption; destruct (set_limit _ _ _ _ _); assumption.
+  - destruct (rem s) as [w|]; [|assumption]. destruct (rin w) as [i|]; [|assumption].
+    destruct (has_counter i && _); [|assumption]. destruct (set_limit _ _ _ _ _); assumption.
+  - destruct (present s && strategy_eqb (sstr s) SCount); [|assumption]. unfold apply_sync. destruct (rw_sync _ _ _ _ _ _); assumption.
+  - destruct (rem s) as [w|]; [|assumption]. destruct (rin w); [|assumption]. destruct (set_limit _ _ _ _ _); assumption.
+  - unfold heartbeat. simpl. destruct (negb _); lia.
+  - unfold heartbeat. simpl. destruct (negb _); lia.
+  - destruct (ms <? 0) eqn:E; lia.
+  - destruct (sync_schema_proj s (scfg s) x) as (_ & _ & _ & A & _). rewrite A. assumption.
+  - destruct (sync_schema_proj s {| ck := k; l1 := a; l2 := b; g1 := g; g2 := h |} x) as (_ & _ & _ & A & _). rewrite A. assumption.
+  - destruct (present s); assumption.
+  - destruct (present s && enable_global (sstr s)); [|assumption]. destruct (rem s); assumption.
+Qed.
+
+Lemma hage_run st ops : forall s, 0 <= hage s -> 0 <= hage (run true true true st s ops).
+Proof. induction ops as [|e r IH]; intros s H; [assumption|]. simpl. apply IH. apply hage_step. assumption. Qed.
+
+Lemma hb_sequence st s ms : crashed s = false -> 0 <= hage s -> 0 <= ms ->
+  let s' := step true true true st (step true true true st (step true true true st s (EHb false)) (EElapse ms)) (EHb false) in
+  (5000 <= ms -> hready s' = false) /\
+  (ms < 5000 -> hlast s = true -> hready s = true -> hready s' = true).
+Proof.
+  intros Cr H Hs.
+  assert (E1 : step true true true st s (EHb false) = heartbeat s false) by (unfold step; rewrite Cr; reflexivity).
+  rewrite E1. unfold step. simpl. rewrite Cr. simpl. unfold heartbeat. simpl.
+  destruct (ms <? 0) eqn:E; [lia|].
+  destruct (hlast s), (hready s); simpl; split; intros; try reflexivity; try discriminate;
+    repeat match goal with |- context [?x <=? ?y] => destruct (x <=? y) eqn:? end; try reflexivity; lia.
+Qed.
+
+Lemma Forall_app_ok ops ops' : Forall ev_ok ops -> Forall ev_ok ops' -> Forall ev_ok (ops ++ ops').
+Proof. intros A B. apply Forall_app. split; assumption. Qed.
+
+Lemma run_app st s ops ops' : run true true true st s (ops ++ ops') = run true true true st (run true true true st s ops) ops'.
+Proof. unfold run. apply fold_left_app. Qed.
+
+Lemma heartbeat_fallback st str0 ops ms : valid_cfg (cfg st) -> Forall ev_ok ops -> 5000 <= ms ->
+  let s := run true true true st (init (cfg st) str0) (ops ++ [EHb false; EElapse ms; EHb false]) in
+  is_ready st s = false /\
+  (present s = true -> o_sel (observe true st s) = SelLocal /\ o_lim (observe true st s) = Some (local_spec (scfg s))).
+Proof.
+  intros V Ev Hs s.
+  assert (R : hready s = false).
+  { subst s. rewrite run_app.
+    destruct (reach_inv st str0 ops V Ev) as (m & _ & (I1 & _)).
+    simpl. apply hb_sequence; auto; [|lia]. apply hage_run. simpl. lia. }
+  split; [unfold is_ready; destruct (cs st); auto|].
+  intros P. apply fallback; auto. apply Forall_app_ok; [assumption|]. repeat constructor.
+Qed.
+
+(* below 5 s of failing heartbeats a ready server stays ready (the hysteresis of setLeaderStatus) *)
+Lemma heartbeat_hysteresis st str0 ops ms : valid_cfg (cfg st) -> Forall ev_ok ops -> 0 <= ms < 5000 ->
+  let s0 := run true true true st (init (cfg st) str0) ops in
+  hlast s0 = true -> hready s0 = true ->
+  hready (run true true true st (init (cfg st) str0) (ops ++ [EHb false; EElapse ms; EHb false])) = true.
+Proof.
+  intros V Ev Hs s0 L R. rewrite run_app. fold s0.
+  destruct (reach_inv st str0 ops V Ev) as (m & _ & (I1 & _)). fold s0 in I1.
+  simpl. apply hb_sequence; auto; try lia. apply hage_run. simpl. lia.
+Qed.
+
+Lemma heartbeat_ready st str0 ops e : valid_cfg (cfg st) -> Forall ev_ok ops -> e = EHb true \/ e = ELeader ->
+  hready (run true true true st (init (cfg st) str0) (ops ++ [e])) = true.
+Proof.
+  intros V Ev He. rewrite run_app.
+  destruct (reach_inv st str0 ops V Ev) as (m & _ & (I1 & _)). simpl.
+  destruct He as [-> | ->]; unfold step; rewrite I1; unfold heartbeat; simpl; destruct (hready _); reflexivity.
+Qed.
+
+(* ---------- reactions, stated on reachable states ---------- *)
+Lemma lim_eqb_eq a b : lim_eqb a b = true -> a = b.
+Proof.
+  destruct a, b; simpl; intros H; try discriminate; try reflexivity.
+  - f_equal. lia.
+  - apply andb_true_iff in H. destruct H. f_equal; lia.
+Qed.
+
+Lemma observe_selected st maxrt s w i : Inv maxrt s -> present s = true ->
+  md st = MRemote -> cs st = CSOk -> hready s = true -> enable_global (sstr s) = true ->
+  rem s = Some w -> rin w = Some i ->
+  o_sel (observe true st s) = SelRemote /\ o_lim (observe true st s) = Some (il i).
+Proof.
+  intros I P M Cs R G Rm Ri. rewrite (observe_shape st maxrt s I P). simpl.
+  assert (E : elig st s = true) by (unfold elig, has_inner; rewrite M, Cs, R, G, Rm, Ri; reflexivity).
+  rewrite E. unfold remote_lim. rewrite Rm, Ri. auto.
+Qed.
+
+Lemma count_state st s w i i' r rt : crashed s = false ->
+  rem s = Some w -> rin w = Some i -> set_limit true (scfg s) i r rt = Some i' ->
+  step true true true st s (ECount r rt) = set_rem s (Some {| rin := Some i'; rcfg := rcfg w |}).
+Proof. intros I1 R Ri E. unfold step. rewrite I1, R, Ri, E. reflexivity. Qed.
+
+Lemma rem_present maxrt s w : Inv maxrt s -> rem s = Some w -> present s = true.
+Proof. intros (_ & _ & Ip & _) R. destruct (present s); [reflexivity|]. rewrite (Ip eq_refl) in R. discriminate. Qed.
+
+(* a global-count error reply on an available wrapper synced from the schema's own global section:
+   the limiter falls back to max(observed, local) within the global limit — never below the local limit *)
+Lemma failing_bounds st str0 ops mx rate rt w i : valid_cfg (cfg st) -> Forall ev_ok ops ->
+  let s := run true true true st (init (cfg st) str0) ops in let c := scfg s in
+  rem s = Some w -> rin w = Some i -> iw i <> WEmpty -> iun i = false ->
+  (0 <? rt) && (rt <=? ilast i) = false ->
+  rcfg w = Some {| idet := global_detail c; istr := SCount |} ->
+  exists i', rem (step true true true st s (ECount (RErr mx rate) rt)) = Some {| rin := Some i'; rcfg := rcfg w |} /\
+             iun i' = true /\
+             match ck c with
+             | KMI => exists n, il i' = LMI n /\ l1 c <= n <= g1 c
+             | KTB => exists q b, il i' = LTB q b /\ l1 c <= q <= g1 c /\ 0 <= b <= g2 c
+             end.
+Proof.
+  intros V Ev s c Rm Ri W U F Rc. destruct (reach_inv st str0 ops V Ev) as (m & _ & I). fold s in I.
+  pose proof I as (I1 & Vs & _ & _ & I3). fold c in Vs. rewrite Rm in I3. unfold wrap_ok in I3. rewrite Ri in I3. fold c in I3.
+  destruct I3 as (it & Rc' & Hit & Hi). rewrite Rc in Rc'. inversion Rc'; subst it; clear Rc'.
+  pose proof Hi as Hi0. unfold inner_ok in Hi0. unfold global_detail in *.
+  destruct (iw i) eqn:Wi; [congruence| |].
+  - destruct Hi0 as (_ & K & _). rewrite K in *.
+    destruct (set_limit_mi_err c m i _ (g1 c) mx rate rt Vs Hit ltac:(rewrite K; exact Hi) Wi U F eq_refl) as (i' & E & _ & U' & L').
+    exists i'. rewrite (count_state st s w i i' _ rt I1 Rm Ri E). simpl.
+    split; [reflexivity|]. split; [assumption|]. eexists. split; [exact L'|].
+    unfold valid_cfg in Vs. rewrite K in Vs. unfold zmin, zmax. zcases; lia.
+  - destruct Hi0 as (_ & K & _). rewrite K in *.
+    destruct (set_limit_tb_err c m i _ (g1 c) (g2 c) mx rate rt Vs Hit ltac:(rewrite K; exact Hi) Wi U eq_refl) as (i' & E & _ & U' & L').
+    exists i'. rewrite (count_state st s w i i' _ rt I1 Rm Ri E). simpl.
+    split; [reflexivity|]. split; [assumption|]. eexists. eexists. split; [exact L'|].
+    unfold valid_cfg in Vs. rewrite K in Vs. unfold zmin, zmax. zcases; lia.
+Qed.
+
+(* a server quota of the schema's type (or carrying both members) becomes the limiter's size, bounded by
+   the global limit, and is what a request meets as soon as the server is ready *)
+Lemma recovery_allocate st str0 ops it l : valid_cfg (cfg st) -> Forall ev_ok ops ->
+  let s := run true true true st (init (cfg st) str0) ops in let c := scfg s in
+  present s = true ->
+  md st = MRemote -> cs st = CSOk -> hready s = true -> enable_global (sstr s) = true ->
+  istr it <> SCount -> granted c (idet it) = Some l ->
+  let s' := step true true true st s (EQuota it) in
+  o_sel (observe true st s') = SelRemote /\ o_lim (observe true st s') = Some l /\ remote_lim s' = Some l.
+Proof.
+  intros V Ev s c P M Cs R G S Gr s'. destruct (reach_ctx st str0 ops V Ev) as (m & k & Hm & I & Cx). fold s in I, Cx.
+  pose proof (step_inv st m s (EQuota it) 0 Hm Logic.I I) as I'. fold s' in I'. simpl in I'.
+  pose proof (recovery_holds st m k s (EQuota it) Hm Logic.I I Cx) as H. fold s' c in H.
+  unfold recovery_ok in H. destruct (observe_rem_eq st _ _ I') as [Er Ep]. simpl o_evp in H. rewrite Ep in H.
+  assert (G' : global_strategy (sstr s) = true) by (destruct (sstr s); auto).
+  rewrite P, G' in H.
+  assert (S' : strategy_eqb (istr it) SCount = false).
+  { destruct (strategy_eqb (istr it) SCount) eqn:X; [|reflexivity]. apply strategy_eqb_eq in X. contradiction. }
+  rewrite S', Gr in H. simpl in H. apply andb_true_iff in H. destruct H as [H1 H2].
+  unfold inner_is, rlim_is, rem_of in *. simpl o_rem in *. rewrite Er in *. unfold observe_rem in *.
+  destruct (rem s') as [w'|] eqn:Rm'; [|discriminate].
+  destruct (rin w') as [i'|] eqn:Ri'; [|discriminate]. simpl in *.
+  apply lim_eqb_eq in H2.
+  destruct (step_proj st s (EQuota it) ltac:(destruct I as (I1 & _); exact I1)) as (P' & _ & Ss & _). fold s' in P', Ss. simpl in P', Ss.
+  assert (Hr : hready s' = hready s).
+  { subst s'. unfold step. destruct I as (I1 & _). rewrite I1, P, G. simpl. unfold apply_sync. destruct (rw_sync _ _ _ _ _ _); reflexivity. }
+  destruct (observe_selected st m s' w' i' I' ltac:(congruence) M Cs ltac:(congruence) ltac:(congruence) Rm' Ri') as [A B].
+  split; [assumption|]. split; [congruence|]. unfold remote_lim. rewrite Rm', Ri'. congruence.
+Qed.
+
+(* an accepted global-count reply that is not stale ends the unavailable state; the granted limit,
+   raised to the burst reserve and bounded by the granted maximum, is the size (token bucket: the
+   configured global rate is restored) and it is what a request meets when the server is ready *)
+Lemma recovery_count st str0 ops limit rt w i it : valid_cfg (cfg st) -> Forall ev_ok ops ->
+  let s := run true true true st (init (cfg st) str0) ops in
+  rem s = Some w -> rin w = Some i -> iw i <> WEmpty -> rcfg w = Some it ->
+  (0 <? rt) && (rt <=? ilast i) = false ->
+  let s' := step true true true st s (ECount (ROk true limit) rt) in
+  exists i', rem s' = Some {| rin := Some i'; rcfg := Some it |} /\ iun i' = false /\
+             match idet it with
+             | DMI m => il i' = LMI (zmin (zmax limit (reserve_of true m)) m)
+             | DTB q b => il i' = LTB q b
+             | _ => False
+             end /\
+             (md st = MRemote -> cs st = CSOk -> hready s = true -> enable_global (sstr s) = true ->
+              o_sel (observe true st s') = SelRemote /\ o_lim (observe true st s') = Some (il i')).
+Proof.
+  intros V Ev s Rm Ri W Rc F s'. destruct (reach_inv st str0 ops V Ev) as (m & Hm & I). fold s in I.
+  pose proof (step_inv st m s (ECount (ROk true limit) rt) 0 Hm Logic.I I) as I'. fold s' in I'.
+  pose proof (rem_present m s w I Rm) as P.
+  pose proof I as (I1 & Vs & _ & _ & I3). rewrite Rm in I3. unfold wrap_ok in I3. rewrite Ri in I3.
+  destruct I3 as (it' & Rc' & Hit & Hi). rewrite Rc in Rc'. inversion Rc'; subst it'; clear Rc'.
+  assert (Sel : forall i', s' = set_rem s (Some {| rin := Some i'; rcfg := rcfg w |}) ->
+                md st = MRemote -> cs st = CSOk -> hready s = true -> enable_global (sstr s) = true ->
+                o_sel (observe true st s') = SelRemote /\ o_lim (observe true st s') = Some (il i')).
+  { intros i' E M Cs R G.
+    apply (observe_selected st _ s' {| rin := Some i'; rcfg := rcfg w |} i' I'); try rewrite E; simpl; auto. }
+  pose proof Hi as Hi0. unfold inner_ok in Hi0.
+  destruct (iw i) eqn:Wi; [congruence| |].
+  - destruct Hi0 as (_ & _ & mm & n & D & _).
+    destruct (set_limit_mi_accept (scfg s) m i it mm limit rt Vs Hit Hi Wi F D) as (i' & E & _ & U' & _ & L').
+    pose proof (count_state st s w i i' _ rt I1 Rm Ri E) as St. fold s' in St.
+    exists i'. split; [rewrite St; simpl; rewrite Rc; reflexivity|]. split; [assumption|].
+    split; [rewrite D; assumption|]. apply Sel; assumption.
+  - destruct Hi0 as (_ & _ & _ & q & b & q' & b' & D & _).
+    destruct (set_limit_tb_accept (scfg s) m i it q b limit rt Vs Hit Hi Wi D) as (i' & E & _ & U' & L').
+    pose proof (count_state st s w i i' _ rt I1 Rm Ri E) as St. fold s' in St.
+    exists i'. split; [rewrite St; simpl; rewrite Rc; reflexivity|]. split; [assumption|].
+    split; [rewrite D; assumption|]. apply Sel; assumption.
+Qed.
+
+(* a schema update — other limits, another strategy, another TYPE, or the name added again — takes effect
+   at once: right after it, the limiter a request meets and the remote limiter are of the new type and
+   within the new limits; no window until the next answer of the limiter server *)
+Lemma schema_update_bounds st str0 ops k x a b g h : valid_cfg (cfg st) -> Forall ev_ok ops ->
+  let c' := {| ck := k; l1 := a; l2 := b; g1 := g; g2 := h |} in
+  valid_cfg c' ->
+  let s' := run true true true st (init (cfg st) str0) (ops ++ [ESchema k x a b g h]) in
+  present s' = true /\ scfg s' = c' /\ sstr s' = x /\
+  (exists l, o_lim (observe true st s') = Some l /\ lim_bounded c' l = true) /\
+  (forall l, remote_lim s' = Some l -> lim_bounded c' l = true).
+Proof.
+  intros V Ev c' V' s'.
+  assert (Ev' : Forall ev_ok (ops ++ [ESchema k x a b g h])).
+  { apply Forall_app_ok; [assumption|]. constructor; [exact V'|constructor]. }
+  destruct (reach_inv st str0 _ V Ev') as (m & _ & I). fold s' in I.
+  assert (C : present s' = true /\ scfg s' = c' /\ sstr s' = x).
+  { subst s'. rewrite run_app. simpl.
+    destruct (reach_inv st str0 ops V Ev) as (m0 & _ & (I1 & _)).
+    destruct (step_proj st _ (ESchema k x a b g h) I1) as (A & B & C & _). simpl in A, B, C. auto. }
+  destruct C as (P & C & S). repeat split; auto; rewrite <- C.
+  - destruct (enforced_bounded st m s' I P) as (l & L & B & _). exists l. auto.
+  - intros l R. eapply remote_bounded; eauto.
+Qed.
+
+(* ---------- silence: missing replies ---------- *)
+(* the watchdog of the counter: more than 4 s after the last sync, an available global-count limiter (synced
+   from the schema's own global section) falls back to max(observed, local) within the global limit *)
+Lemma silence_falls_back st str0 ops mx rate w i : valid_cfg (cfg st) -> Forall ev_ok ops ->
+  let s := run true true true st (init (cfg st) str0) ops in let c := scfg s in
+  rem s = Some w -> rin w = Some i -> has_counter i = true -> iun i = false ->
+  4 < now_sec s - isync i ->
+  rcfg w = Some {| idet := global_detail c; istr := SCount |} ->
+  exists i', rem (step true true true st s (EWatchdog mx rate)) = Some {| rin := Some i'; rcfg := rcfg w |} /\
+             iun i' = true /\
+             match ck c with
+             | KMI => exists n, il i' = LMI n /\ l1 c <= n <= g1 c
+             | KTB => exists q b, il i' = LTB q b /\ l1 c <= q <= g1 c /\ 0 <= b <= g2 c
+             end.
+Proof.
+  intros V Ev s c Rm Ri H U Q Rc. destruct (reach_inv st str0 ops V Ev) as (m & _ & I). fold s in I.
+  pose proof I as (I1 & Vs & _ & _ & I3). fold c in Vs. rewrite Rm in I3. unfold wrap_ok in I3. rewrite Ri in I3. fold c in I3.
+  destruct I3 as (it & Rc' & Hit & Hi). rewrite Rc in Rc'. inversion Rc'; subst it; clear Rc'.
+  assert (Fire : has_counter i && (4 <? now_sec s - isync i) = true) by (rewrite H; simpl; lia).
+  assert (St : forall i', set_limit true c i (RErr mx rate) 0 = Some i' ->
+               step true true true st s (EWatchdog mx rate) = set_rem s (Some {| rin := Some i'; rcfg := rcfg w |})).
+  { intros i' E. unfold step. rewrite I1, Rm, Ri, Fire. fold c. rewrite E. reflexivity. }
+  pose proof Hi as Hi0. unfold inner_ok in Hi0. unfold global_detail in *.
+  apply has_counter_kind in H. destruct H as [Wi|Wi]; rewrite Wi in Hi0.
+  - destruct Hi0 as (_ & K & _). rewrite K in *.
+    destruct (set_limit_mi_err c m i _ (g1 c) mx rate 0 Vs Hit ltac:(rewrite K; exact Hi) Wi U eq_refl eq_refl) as (i' & E & _ & U' & L').
+    exists i'. rewrite (St i' E). simpl.
+    split; [reflexivity|]. split; [assumption|]. eexists. split; [exact L'|].
+    unfold valid_cfg in Vs. rewrite K in Vs. unfold zmin, zmax. zcases; lia.
+  - destruct Hi0 as (_ & K & _). rewrite K in *.
+    destruct (set_limit_tb_err c m i _ (g1 c) (g2 c) mx rate 0 Vs Hit ltac:(rewrite K; exact Hi) Wi U eq_refl) as (i' & E & _ & U' & L').
+    exists i'. rewrite (St i' E). simpl.
+    split; [reflexivity|]. split; [assumption|]. eexists. eexists. split; [exact L'|].
+    unfold valid_cfg in Vs. rewrite K in Vs. unfold zmin, zmax. zcases; lia.
+Qed.
+
+(* events during which no reply for the schema arrives: time passes, heartbeats, worker rounds whose
+   reply omits the schema *)
+Definition silent (e : ev) : Prop :=
+  match e with EElapse _ | EHb _ | ELeader | EWorker _ SvOmit _ _ => True | _ => False end.
+Fixpoint elapsed (l : list ev) : Z :=
+  match l with
+  | [] => 0
+  | EElapse ms :: r => (if ms <? 0 then 0 else ms) + elapsed r
+  | _ :: r => elapsed r
+  end.
+
+Lemma silent_ok e : silent e -> ev_ok e.
+Proof. destruct e; simpl; auto; contradiction. Qed.
+
+Lemma silent_step st s e : crashed s = false -> silent e ->
+  let s' := step true true true st s e in
+  rem s' = rem s /\ scfg s' = scfg s /\ crashed s' = false /\ snow s' = snow s + elapsed [e].
+Proof.
+  intros Cr S. unfold step. rewrite Cr. destruct e; try contradiction; simpl.
+  - destruct sv; try contradiction. destruct (worker_target st s idle) as [[w i]|]; simpl; repeat split; auto; lia.
+  - unfold heartbeat. simpl. repeat split; auto; lia.
+  - unfold heartbeat. simpl. repeat split; auto; lia.
+  - repeat split; auto; lia.
+Qed.
+
+Lemma silent_run st : forall l s, crashed s = false -> Forall silent l ->
+  let s' := run true true true st s l in
+  rem s' = rem s /\ scfg s' = scfg s /\ crashed s' = false /\ snow s' = snow s + elapsed l.
+Proof.
+  induction l as [|e r IH]; intros s Cr F; [simpl; repeat split; auto; lia|].
+  inversion F as [|? ? Fe Fr]; subst.
+  destruct (silent_step st s e Cr Fe) as (A & B & C & D).
+  destruct (IH _ C Fr) as (A' & B' & C' & D'). simpl run.
+  repeat split; try congruence.
+  rewrite D', D. simpl elapsed. destruct e; simpl in *; try contradiction; lia.
+Qed.
+
+(* for every history: once the limiter server has been silent for the schema for 5 s (no reply delivered,
+   whatever else happens among the silent events), the next watchdog tick puts the fallback in force *)
+Lemma silence_history st str0 ops quiet mx rate w i : valid_cfg (cfg st) -> Forall ev_ok ops -> Forall silent quiet ->
+  let s := run true true true st (init (cfg st) str0) ops in let c := scfg s in
+  rem s = Some w -> rin w = Some i -> has_counter i = true -> iun i = false ->
+  rcfg w = Some {| idet := global_detail c; istr := SCount |} ->
+  5000 <= elapsed quiet ->
+  let s' := run true true true st (init (cfg st) str0) (ops ++ quiet ++ [EWatchdog mx rate]) in
+  exists i', rem s' = Some {| rin := Some i'; rcfg := rcfg w |} /\ iun i' = true /\
+             match ck c with
+             | KMI => exists n, il i' = LMI n /\ l1 c <= n <= g1 c
+             | KTB => exists q b, il i' = LTB q b /\ l1 c <= q <= g1 c /\ 0 <= b <= g2 c
+             end.
+Proof.
+  intros V Ev Sq s c Rm Ri H U Rc El s'.
+  destruct (reach_ctx st str0 ops V Ev) as (m & k & Hm & I & (Cn & Cr & Cq & Cc)). fold s in I, Cn, Cr, Cc.
+  destruct I as (I1 & _).
+  destruct (silent_run st quiet s I1 Sq) as (A & B & C & D).
+  assert (Evq : Forall ev_ok (ops ++ quiet)).
+  { apply Forall_app_ok; [assumption|]. eapply Forall_impl; [|exact Sq]. intros e. apply silent_ok. }
+  assert (Sy : isync i <= now_sec s).
+  { pose proof (Cc i (counter_some s w i Rm Ri H)) as X. unfold now_sec. rewrite Cn.
+    pose proof (div1000_mono (k_quiet k) (k_now k) ltac:(lia)). lia. }
+  subst s'. rewrite app_assoc, run_app. simpl. rewrite run_app. fold s.
+  pose proof (silence_falls_back st str0 (ops ++ quiet) mx rate w i V Evq) as L.
+  rewrite run_app in L. fold s in L. simpl in L. rewrite B in L. fold c in L.
+  apply L; auto; try (rewrite A; exact Rm).
+  unfold now_sec in *. rewrite D.
+  assert (snow s / 1000 + 5 <= (snow s + elapsed quiet) / 1000).
+  { replace (snow s / 1000 + 5) with ((snow s + 5 * 1000) / 1000) by (rewrite Z.div_add; lia).
+    apply div1000_mono. lia. }
+  lia.
 Qed.
